@@ -3162,9 +3162,9 @@ theorem scope_callNow_is_callFull (sc : Scope) (fn : String) (segs : List Seg) (
                         last := some (withName { es := beginCall sc.es, call := newCall (sc.actualOrder + 1), fail := none } (sc.fullName fn)).call },
         fail := (withName { es := beginCall sc.es, call := newCall (sc.actualOrder + 1), fail := none } (sc.fullName fn)).fail,
         ignored := false } := by
-    unfold Scope.actualCall Scope.checkLast
+    unfold Scope.actualCall Scope.checkLast Scope.startCall
     simp only [hlast, hen, hioc]
-    cases sc; simp_all
+    cases sc; simp_all [Scope.fullName]
   unfold Scope.callNow callFull
   rw [hact]
   simp only
